@@ -91,6 +91,31 @@ def r1_release_on_all_exits(ctx, mod):
                 ctx.ok('R1', key, sample='every exception atom passes through a release')
 
 
+def r1b_timeout_arm_releases(ctx, mod):
+    """The grader's `except TimeoutError` arm must stop the patches of the abandoned execution itself."""
+    fn = mod.func('Sandbox._execute_with_timeout')
+    ctx.analysed_function(mod, fn)
+    arms = [h for t in ast.walk(fn) if isinstance(t, ast.Try) for h in t.handlers
+            if h.type is not None and 'TimeoutError' in norm(h.type)]
+    ctx.require(len(arms) == 1, "_execute_with_timeout has no single TimeoutError arm")
+    rel = [c for st in arms[0].body for c in calls(st) if is_self_call(c, '_stop_mocking')
+           or is_self_call(c, '_stop_patches')]
+    cap = [c for st in arms[0].body for c in calls(st) if is_self_call(c, '_capture_exception')]
+    ok = bool(rel) and (not cap or arms[0].body.index(_stmt_of(rel[0], arms[0])) <
+                        arms[0].body.index(_stmt_of(cap[0], arms[0])))
+    ctx.check(ok, 'R1', 'Sandbox._execute_with_timeout:timeout-arm-releases', mod, arms[0],
+              "after a time-limit violation the grader's arm does not stop the patches of the abandoned execution "
+              "(before recording the timeout): restoring them is left to the student thread, which may never unwind",
+              "student code blocked in C or swallowing BaseException under a time limit: run(threaded=True) returns "
+              "with sys.stdout, sys.modules and time.sleep still patched", function='Sandbox._execute_with_timeout')
+
+
+def _stmt_of(node, handler):
+    while getattr(node, '_parent', None) is not handler:
+        node = node._parent
+    return node
+
+
 def r2_release_before_recording(ctx, mod):
     ctx.rule('R2', "in every handler, _stop_mocking dominates _capture_exception (a failure while building the "
                    "feedback leaves nothing patched)")
@@ -400,6 +425,7 @@ def run(ctx):
     sym = Symbols(ctx.repo)
     mod = ctx.repo.module(SANDBOX)
     r1_release_on_all_exits(ctx, mod)
+    r1b_timeout_arm_releases(ctx, mod)
     r2_release_before_recording(ctx, mod)
     r3_release_complete_and_owned(ctx, mod)
     r4_restorable(ctx, mod)
